@@ -291,6 +291,7 @@ const preludeCore = `
 (declare-fun addr_of (Int U) U)
 (declare-fun cplx_re (Cplx) (_ FloatingPoint 11 53))
 (declare-fun cplx_im (Cplx) (_ FloatingPoint 11 53))
+(declare-fun cplx_mk ((_ FloatingPoint 11 53) (_ FloatingPoint 11 53)) Cplx)
 (define-fun cplx_goeq ((a Cplx) (b Cplx)) Bool (and (fp.eq (cplx_re a) (cplx_re b)) (fp.eq (cplx_im a) (cplx_im b))))
 (declare-fun rankf (U U U) Int)
 (declare-fun ceq (U U) Bool)
